@@ -81,7 +81,7 @@ CLAIMED["C14"] = (
     "printer-template extraction for CCodeMapper through its MRO + reference "
     "parser driven by the ISO C operator table, compared in a real-arithmetic "
     "normal form over all 2-/3-level nestings; role/def-use analysis of the "
-    "three CSE containers and path-order rules in map_common_subexpression",
+    "three CSE containers and path-order rules in map_common_subexpression; C typing rule: no integer/integer division for a true-division node",
     "The emitted C text of every (parent, position, child) nesting is re-grouped "
     "by a C-precedence reference parser and must denote the same tree up to "
     "regroupings that cannot change a value; every writer of the CSE containers "
@@ -119,7 +119,7 @@ CLAIMED["C17"] = (
     "pickle bypasses; taint-style rule on every value reaching the persistent "
     "digest (must be a process-independent string) and on iteration order of "
     "mapping-valued fields; class-table agreement between the registered numpy "
-    "constant classes and the digest's normalisation test",
+    "constant classes and the digest's normalisation test; init_arg_names of the init-args nodes",
     "State = field tuple only and digest inputs/iteration order are facts about "
     "the code, decided for all expressions; cross-process behaviour follows "
     "because nothing process-dependent (hash(), id(), dict order of equal "
@@ -159,7 +159,7 @@ CLAIMED["C12"] = (
     "ownership rule over every CommonSubexpression construction site with the "
     "path conditions that dominate it; table/sibling rules for the normalised "
     "key; look-aside path rule on the CSE caching mix-in; MRO rule for every "
-    "mapper that uses the mix-in",
+    "mapper that uses the mix-in; canonical-table rule for pre-existing wrappers",
     "Partial: 'no wrapper directly around a wrapper', key sharing, and "
     "once-per-evaluation are decided structurally for all inputs; that tagging "
     "finds every repeat and preserves value is declined.",
@@ -202,7 +202,7 @@ CLAIMED["C16"] = (
     "associative-commutative search (roles of the nested helpers identified by "
     "def-use, then checked path by path), inverse-table check of the matchpy "
     "to/from mappers over the op dataclasses and of the binding conversion of "
-    "replacement callbacks",
+    "replacement callbacks; matchpy bridge: operations rebuildable from unpacked operands, bindings of match()/match_anywhere() converted like the replacement callback's",
     "Partial: soundness-relevant structure is decided for all inputs (what is "
     "matched against what, who may create records, how bindings merge, that "
     "every target child of an AC match is used exactly once, that the bridge is "
@@ -226,7 +226,8 @@ CLAIMED["C03"] = (
     "(operand is 0 / is 1 / has unsupported type / is of the same n-ary class) "
     "and results normalised to self/other/constant/node(operand order); "
     "shortcut pairs checked against a table of valid identities; census for "
-    "ordering overrides",
+    "ordering overrides; sibling agreement of the operand gates (which "
+    "predicate each operator method applies, whether it refuses booleans)",
     "All (operator, guard, result) triples of the overloads are enumerated, so "
     "every construction-time shortcut and every operand order is decided, "
     "including the reflected and splicing variants that sampling rarely "
